@@ -12,28 +12,28 @@ def LineAlgo.closestPoints {α : Type} [Add α] [Sub α] [Mul α] [Div α] [Neg 
   let t58 := (l1.pos.x - l2.pos.x)
   let t63 := (((l1.dir.x * t58) + (l1.dir.y * t57)) + (l1.dir.z * t56))
   let t73 := (((l2.dir.x * t58) + (l2.dir.y * t57)) + (l2.dir.z * t56))
-  let t117 := (((l1.dir.x * l2.dir.x) + (l1.dir.y * l2.dir.y)) + (l1.dir.z * l2.dir.z))
-  let t119 := ((t117 * t73) - t63)
-  let t121 := (t73 - (t117 * t63))
-  let t123 := ((1 : α) - (t117 * t117))
-  let t124 := (sabs t123)
-  let t125 := (t119 / t123)
-  let t129 := (l1.pos.z + (l1.dir.z * t125))
-  let t130 := (l1.pos.y + (l1.dir.y * t125))
-  let t131 := (l1.pos.x + (l1.dir.x * t125))
-  let t132 := (t121 / t123)
-  let t136 := (l2.pos.z + (l2.dir.z * t132))
-  let t137 := (l2.pos.y + (l2.dir.y * t132))
-  let t138 := (l2.pos.x + (l2.dir.x * t132))
-  let t139 := (tmax * t124)
-  let t140 := (sabs t119)
-  let t141 := (sabs t121)
-  if (1 : α) < t124 then
-    (true, ⟨t131, t130, t129⟩, ⟨t138, t137, t136⟩)
+  let t134 := (((l1.dir.x * l2.dir.x) + (l1.dir.y * l2.dir.y)) + (l1.dir.z * l2.dir.z))
+  let t136 := ((t134 * t73) - t63)
+  let t138 := (t73 - (t134 * t63))
+  let t140 := ((1 : α) - (t134 * t134))
+  let t141 := (sabs t140)
+  let t142 := (t136 / t140)
+  let t146 := (l1.pos.z + (l1.dir.z * t142))
+  let t147 := (l1.pos.y + (l1.dir.y * t142))
+  let t148 := (l1.pos.x + (l1.dir.x * t142))
+  let t149 := (t138 / t140)
+  let t153 := (l2.pos.z + (l2.dir.z * t149))
+  let t154 := (l2.pos.y + (l2.dir.y * t149))
+  let t155 := (l2.pos.x + (l2.dir.x * t149))
+  let t156 := (tmax * t141)
+  let t157 := (sabs t136)
+  let t158 := (sabs t138)
+  if (1 : α) < t141 then
+    (true, ⟨t148, t147, t146⟩, ⟨t155, t154, t153⟩)
   else
-    if t140 < t139 then
-      if t141 < t139 then
-        (true, ⟨t131, t130, t129⟩, ⟨t138, t137, t136⟩)
+    if t157 < t156 then
+      if t158 < t156 then
+        (true, ⟨t148, t147, t146⟩, ⟨t155, t154, t153⟩)
       else
         (false, ⟨(0 : α), (0 : α), (0 : α)⟩, ⟨(0 : α), (0 : α), (0 : α)⟩)
     else
@@ -41,260 +41,260 @@ def LineAlgo.closestPoints {α : Type} [Add α] [Sub α] [Mul α] [Div α] [Neg 
 
 /-- extracted from the C++ template at T = Sym; 50 path(s) -/
 def LineAlgo.intersect {α : Type} [Add α] [Sub α] [Mul α] [Div α] [Neg α] [LT α] [LE α] [DecidableLT α] [DecidableLE α] [DecidableEq α] [OfNat α 0] [OfNat α 1] [OfNat α 2] (tmin : α) (tmax : α) (sqrt : α → α) (l : Line3 α) (v0 : V3 α) (v1 : V3 α) (v2 : V3 α) : (Bool × (V3 α) × (V3 α) × Bool) :=
-  let t151 := (v1.z - v0.z)
-  let t152 := (v1.y - v0.y)
-  let t153 := (v1.x - v0.x)
-  let t154 := (v2.z - v1.z)
-  let t155 := (v2.y - v1.y)
-  let t156 := (v2.x - v1.x)
-  let t159 := ((t156 * t152) - (t155 * t153))
-  let t162 := ((t154 * t153) - (t156 * t151))
-  let t165 := ((t155 * t151) - (t154 * t152))
-  let t166 := (V3.length tmin sqrt ⟨t165, t162, t159⟩)
-  let t167 := (t165 / t166)
-  let t168 := (t162 / t166)
-  let t169 := (t159 / t166)
-  let t177 := (((t167 * (v0.x - l.pos.x)) + (t168 * (v0.y - l.pos.y))) + (t169 * (v0.z - l.pos.z)))
-  let t182 := (((t167 * l.dir.x) + (t168 * l.dir.y)) + (t169 * l.dir.z))
-  let t183 := (sabs t182)
-  let t184 := (t177 / t182)
-  let t188 := (l.pos.z + (l.dir.z * t184))
-  let t189 := (l.pos.y + (l.dir.y * t184))
-  let t190 := (l.pos.x + (l.dir.x * t184))
-  let t191 := (V3.length tmin sqrt ⟨t153, t152, t151⟩)
-  let t192 := (t188 - v0.z)
-  let t193 := (t189 - v0.y)
-  let t194 := (t190 - v0.x)
-  let t195 := (v2.z - v0.z)
-  let t196 := (v2.y - v0.y)
-  let t197 := (v2.x - v0.x)
-  let t203 := ((0 : α) * ((((0 : α) * t194) + ((0 : α) * t193)) + ((0 : α) * t192)))
-  let t212 := ((0 : α) * ((((0 : α) * t197) + ((0 : α) * t196)) + ((0 : α) * t195)))
-  let t213 := (t195 - t212)
-  let t214 := (t196 - t212)
-  let t215 := (t197 - t212)
-  let t220 := ((((t194 - t203) * t215) + ((t193 - t203) * t214)) + ((t192 - t203) * t213))
-  let t225 := (((t215 * t215) + (t214 * t214)) + (t213 * t213))
-  let t226 := (t220 / t225)
-  let t227 := (V3.length tmin sqrt ⟨t156, t155, t154⟩)
-  let t228 := (t188 - v1.z)
-  let t229 := (t189 - v1.y)
-  let t230 := (t190 - v1.x)
-  let t231 := (v0.z - v1.z)
-  let t232 := (v0.y - v1.y)
-  let t233 := (v0.x - v1.x)
-  let t239 := ((0 : α) * ((((0 : α) * t230) + ((0 : α) * t229)) + ((0 : α) * t228)))
-  let t248 := ((0 : α) * ((((0 : α) * t233) + ((0 : α) * t232)) + ((0 : α) * t231)))
-  let t249 := (t231 - t248)
-  let t250 := (t232 - t248)
-  let t251 := (t233 - t248)
-  let t256 := ((((t230 - t239) * t251) + ((t229 - t239) * t250)) + ((t228 - t239) * t249))
-  let t261 := (((t251 * t251) + (t250 * t250)) + (t249 * t249))
-  let t262 := (t256 / t261)
-  let t263 := ((1 : α) - t262)
-  let t264 := (t263 - t226)
-  let t269 := (((l.dir.x * t167) + (l.dir.y * t168)) + (l.dir.z * t169))
-  let t270 := (t154 / t227)
-  let t271 := (t155 / t227)
-  let t272 := (t156 / t227)
-  let t277 := (((t272 * t230) + (t271 * t229)) + (t270 * t228))
-  let t288 := (((t272 * t233) + (t271 * t232)) + (t270 * t231))
-  let t292 := (t231 - (t270 * t288))
-  let t293 := (t232 - (t271 * t288))
-  let t294 := (t233 - (t272 * t288))
-  let t299 := ((((t230 - (t272 * t277)) * t294) + ((t229 - (t271 * t277)) * t293)) + ((t228 - (t270 * t277)) * t292))
-  let t304 := (((t294 * t294) + (t293 * t293)) + (t292 * t292))
-  let t305 := (t299 / t304)
-  let t306 := ((1 : α) - t305)
-  let t307 := (t306 - t226)
-  let t308 := (t151 / t191)
-  let t309 := (t152 / t191)
-  let t310 := (t153 / t191)
-  let t315 := (((t310 * t194) + (t309 * t193)) + (t308 * t192))
-  let t326 := (((t310 * t197) + (t309 * t196)) + (t308 * t195))
-  let t330 := (t195 - (t308 * t326))
-  let t331 := (t196 - (t309 * t326))
-  let t332 := (t197 - (t310 * t326))
-  let t337 := ((((t194 - (t310 * t315)) * t332) + ((t193 - (t309 * t315)) * t331)) + ((t192 - (t308 * t315)) * t330))
-  let t342 := (((t332 * t332) + (t331 * t331)) + (t330 * t330))
-  let t343 := (t337 / t342)
-  let t344 := (t263 - t343)
-  let t345 := (t306 - t343)
-  let t346 := (tmax * t183)
-  let t347 := (sabs t177)
-  if t166 = (0 : α) then
+  let t168 := (v1.z - v0.z)
+  let t169 := (v1.y - v0.y)
+  let t170 := (v1.x - v0.x)
+  let t171 := (v2.z - v1.z)
+  let t172 := (v2.y - v1.y)
+  let t173 := (v2.x - v1.x)
+  let t176 := ((t173 * t169) - (t172 * t170))
+  let t179 := ((t171 * t170) - (t173 * t168))
+  let t182 := ((t172 * t168) - (t171 * t169))
+  let t183 := (V3.length tmin sqrt ⟨t182, t179, t176⟩)
+  let t184 := (t182 / t183)
+  let t185 := (t179 / t183)
+  let t186 := (t176 / t183)
+  let t194 := (((t184 * (v0.x - l.pos.x)) + (t185 * (v0.y - l.pos.y))) + (t186 * (v0.z - l.pos.z)))
+  let t199 := (((t184 * l.dir.x) + (t185 * l.dir.y)) + (t186 * l.dir.z))
+  let t200 := (sabs t199)
+  let t201 := (t194 / t199)
+  let t205 := (l.pos.z + (l.dir.z * t201))
+  let t206 := (l.pos.y + (l.dir.y * t201))
+  let t207 := (l.pos.x + (l.dir.x * t201))
+  let t208 := (V3.length tmin sqrt ⟨t170, t169, t168⟩)
+  let t209 := (t205 - v0.z)
+  let t210 := (t206 - v0.y)
+  let t211 := (t207 - v0.x)
+  let t212 := (v2.z - v0.z)
+  let t213 := (v2.y - v0.y)
+  let t214 := (v2.x - v0.x)
+  let t220 := ((0 : α) * ((((0 : α) * t211) + ((0 : α) * t210)) + ((0 : α) * t209)))
+  let t229 := ((0 : α) * ((((0 : α) * t214) + ((0 : α) * t213)) + ((0 : α) * t212)))
+  let t230 := (t212 - t229)
+  let t231 := (t213 - t229)
+  let t232 := (t214 - t229)
+  let t237 := ((((t211 - t220) * t232) + ((t210 - t220) * t231)) + ((t209 - t220) * t230))
+  let t242 := (((t232 * t232) + (t231 * t231)) + (t230 * t230))
+  let t243 := (t237 / t242)
+  let t244 := (V3.length tmin sqrt ⟨t173, t172, t171⟩)
+  let t245 := (t205 - v1.z)
+  let t246 := (t206 - v1.y)
+  let t247 := (t207 - v1.x)
+  let t248 := (v0.z - v1.z)
+  let t249 := (v0.y - v1.y)
+  let t250 := (v0.x - v1.x)
+  let t256 := ((0 : α) * ((((0 : α) * t247) + ((0 : α) * t246)) + ((0 : α) * t245)))
+  let t265 := ((0 : α) * ((((0 : α) * t250) + ((0 : α) * t249)) + ((0 : α) * t248)))
+  let t266 := (t248 - t265)
+  let t267 := (t249 - t265)
+  let t268 := (t250 - t265)
+  let t273 := ((((t247 - t256) * t268) + ((t246 - t256) * t267)) + ((t245 - t256) * t266))
+  let t278 := (((t268 * t268) + (t267 * t267)) + (t266 * t266))
+  let t279 := (t273 / t278)
+  let t280 := ((1 : α) - t279)
+  let t281 := (t280 - t243)
+  let t286 := (((l.dir.x * t184) + (l.dir.y * t185)) + (l.dir.z * t186))
+  let t287 := (t171 / t244)
+  let t288 := (t172 / t244)
+  let t289 := (t173 / t244)
+  let t294 := (((t289 * t247) + (t288 * t246)) + (t287 * t245))
+  let t305 := (((t289 * t250) + (t288 * t249)) + (t287 * t248))
+  let t309 := (t248 - (t287 * t305))
+  let t310 := (t249 - (t288 * t305))
+  let t311 := (t250 - (t289 * t305))
+  let t316 := ((((t247 - (t289 * t294)) * t311) + ((t246 - (t288 * t294)) * t310)) + ((t245 - (t287 * t294)) * t309))
+  let t321 := (((t311 * t311) + (t310 * t310)) + (t309 * t309))
+  let t322 := (t316 / t321)
+  let t323 := ((1 : α) - t322)
+  let t324 := (t323 - t243)
+  let t325 := (t168 / t208)
+  let t326 := (t169 / t208)
+  let t327 := (t170 / t208)
+  let t332 := (((t327 * t211) + (t326 * t210)) + (t325 * t209))
+  let t343 := (((t327 * t214) + (t326 * t213)) + (t325 * t212))
+  let t347 := (t212 - (t325 * t343))
+  let t348 := (t213 - (t326 * t343))
+  let t349 := (t214 - (t327 * t343))
+  let t354 := ((((t211 - (t327 * t332)) * t349) + ((t210 - (t326 * t332)) * t348)) + ((t209 - (t325 * t332)) * t347))
+  let t359 := (((t349 * t349) + (t348 * t348)) + (t347 * t347))
+  let t360 := (t354 / t359)
+  let t361 := (t280 - t360)
+  let t362 := (t323 - t360)
+  let t363 := (tmax * t200)
+  let t364 := (sabs t194)
+  if t183 = (0 : α) then
     (false, ⟨(0 : α), (0 : α), (0 : α)⟩, ⟨(0 : α), (0 : α), (0 : α)⟩, false)
   else
-    if (1 : α) < t183 then
-      if t191 = (0 : α) then
-        if (0 : α) ≤ t220 then
-          if t220 ≤ t225 then
-            if t227 = (0 : α) then
-              if (0 : α) ≤ t256 then
-                if t256 ≤ t261 then
-                  if t264 < (0 : α) then
-                    (false, ⟨t190, t189, t188⟩, ⟨t262, t264, t226⟩, false)
+    if (1 : α) < t200 then
+      if t208 = (0 : α) then
+        if (0 : α) ≤ t237 then
+          if t237 ≤ t242 then
+            if t244 = (0 : α) then
+              if (0 : α) ≤ t273 then
+                if t273 ≤ t278 then
+                  if t281 < (0 : α) then
+                    (false, ⟨t207, t206, t205⟩, ⟨t279, t281, t243⟩, false)
                   else
-                    if t269 < (0 : α) then
-                      (true, ⟨t190, t189, t188⟩, ⟨t262, t264, t226⟩, true)
+                    if t286 < (0 : α) then
+                      (true, ⟨t207, t206, t205⟩, ⟨t279, t281, t243⟩, true)
                     else
-                      (true, ⟨t190, t189, t188⟩, ⟨t262, t264, t226⟩, false)
+                      (true, ⟨t207, t206, t205⟩, ⟨t279, t281, t243⟩, false)
                 else
-                  (false, ⟨t190, t189, t188⟩, ⟨(0 : α), (0 : α), t226⟩, false)
+                  (false, ⟨t207, t206, t205⟩, ⟨(0 : α), (0 : α), t243⟩, false)
               else
-                (false, ⟨t190, t189, t188⟩, ⟨(0 : α), (0 : α), t226⟩, false)
+                (false, ⟨t207, t206, t205⟩, ⟨(0 : α), (0 : α), t243⟩, false)
             else
-              if (0 : α) ≤ t299 then
-                if t299 ≤ t304 then
-                  if t307 < (0 : α) then
-                    (false, ⟨t190, t189, t188⟩, ⟨t305, t307, t226⟩, false)
+              if (0 : α) ≤ t316 then
+                if t316 ≤ t321 then
+                  if t324 < (0 : α) then
+                    (false, ⟨t207, t206, t205⟩, ⟨t322, t324, t243⟩, false)
                   else
-                    if t269 < (0 : α) then
-                      (true, ⟨t190, t189, t188⟩, ⟨t305, t307, t226⟩, true)
+                    if t286 < (0 : α) then
+                      (true, ⟨t207, t206, t205⟩, ⟨t322, t324, t243⟩, true)
                     else
-                      (true, ⟨t190, t189, t188⟩, ⟨t305, t307, t226⟩, false)
+                      (true, ⟨t207, t206, t205⟩, ⟨t322, t324, t243⟩, false)
                 else
-                  (false, ⟨t190, t189, t188⟩, ⟨(0 : α), (0 : α), t226⟩, false)
+                  (false, ⟨t207, t206, t205⟩, ⟨(0 : α), (0 : α), t243⟩, false)
               else
-                (false, ⟨t190, t189, t188⟩, ⟨(0 : α), (0 : α), t226⟩, false)
+                (false, ⟨t207, t206, t205⟩, ⟨(0 : α), (0 : α), t243⟩, false)
           else
-            (false, ⟨t190, t189, t188⟩, ⟨(0 : α), (0 : α), (0 : α)⟩, false)
+            (false, ⟨t207, t206, t205⟩, ⟨(0 : α), (0 : α), (0 : α)⟩, false)
         else
-          (false, ⟨t190, t189, t188⟩, ⟨(0 : α), (0 : α), (0 : α)⟩, false)
+          (false, ⟨t207, t206, t205⟩, ⟨(0 : α), (0 : α), (0 : α)⟩, false)
       else
-        if (0 : α) ≤ t337 then
-          if t337 ≤ t342 then
-            if t227 = (0 : α) then
-              if (0 : α) ≤ t256 then
-                if t256 ≤ t261 then
-                  if t344 < (0 : α) then
-                    (false, ⟨t190, t189, t188⟩, ⟨t262, t344, t343⟩, false)
+        if (0 : α) ≤ t354 then
+          if t354 ≤ t359 then
+            if t244 = (0 : α) then
+              if (0 : α) ≤ t273 then
+                if t273 ≤ t278 then
+                  if t361 < (0 : α) then
+                    (false, ⟨t207, t206, t205⟩, ⟨t279, t361, t360⟩, false)
                   else
-                    if t269 < (0 : α) then
-                      (true, ⟨t190, t189, t188⟩, ⟨t262, t344, t343⟩, true)
+                    if t286 < (0 : α) then
+                      (true, ⟨t207, t206, t205⟩, ⟨t279, t361, t360⟩, true)
                     else
-                      (true, ⟨t190, t189, t188⟩, ⟨t262, t344, t343⟩, false)
+                      (true, ⟨t207, t206, t205⟩, ⟨t279, t361, t360⟩, false)
                 else
-                  (false, ⟨t190, t189, t188⟩, ⟨(0 : α), (0 : α), t343⟩, false)
+                  (false, ⟨t207, t206, t205⟩, ⟨(0 : α), (0 : α), t360⟩, false)
               else
-                (false, ⟨t190, t189, t188⟩, ⟨(0 : α), (0 : α), t343⟩, false)
+                (false, ⟨t207, t206, t205⟩, ⟨(0 : α), (0 : α), t360⟩, false)
             else
-              if (0 : α) ≤ t299 then
-                if t299 ≤ t304 then
-                  if t345 < (0 : α) then
-                    (false, ⟨t190, t189, t188⟩, ⟨t305, t345, t343⟩, false)
+              if (0 : α) ≤ t316 then
+                if t316 ≤ t321 then
+                  if t362 < (0 : α) then
+                    (false, ⟨t207, t206, t205⟩, ⟨t322, t362, t360⟩, false)
                   else
-                    if t269 < (0 : α) then
-                      (true, ⟨t190, t189, t188⟩, ⟨t305, t345, t343⟩, true)
+                    if t286 < (0 : α) then
+                      (true, ⟨t207, t206, t205⟩, ⟨t322, t362, t360⟩, true)
                     else
-                      (true, ⟨t190, t189, t188⟩, ⟨t305, t345, t343⟩, false)
+                      (true, ⟨t207, t206, t205⟩, ⟨t322, t362, t360⟩, false)
                 else
-                  (false, ⟨t190, t189, t188⟩, ⟨(0 : α), (0 : α), t343⟩, false)
+                  (false, ⟨t207, t206, t205⟩, ⟨(0 : α), (0 : α), t360⟩, false)
               else
-                (false, ⟨t190, t189, t188⟩, ⟨(0 : α), (0 : α), t343⟩, false)
+                (false, ⟨t207, t206, t205⟩, ⟨(0 : α), (0 : α), t360⟩, false)
           else
-            (false, ⟨t190, t189, t188⟩, ⟨(0 : α), (0 : α), (0 : α)⟩, false)
+            (false, ⟨t207, t206, t205⟩, ⟨(0 : α), (0 : α), (0 : α)⟩, false)
         else
-          (false, ⟨t190, t189, t188⟩, ⟨(0 : α), (0 : α), (0 : α)⟩, false)
+          (false, ⟨t207, t206, t205⟩, ⟨(0 : α), (0 : α), (0 : α)⟩, false)
     else
-      if t347 < t346 then
-        if t191 = (0 : α) then
-          if (0 : α) ≤ t220 then
-            if t220 ≤ t225 then
-              if t227 = (0 : α) then
-                if (0 : α) ≤ t256 then
-                  if t256 ≤ t261 then
-                    if t264 < (0 : α) then
-                      (false, ⟨t190, t189, t188⟩, ⟨t262, t264, t226⟩, false)
+      if t364 < t363 then
+        if t208 = (0 : α) then
+          if (0 : α) ≤ t237 then
+            if t237 ≤ t242 then
+              if t244 = (0 : α) then
+                if (0 : α) ≤ t273 then
+                  if t273 ≤ t278 then
+                    if t281 < (0 : α) then
+                      (false, ⟨t207, t206, t205⟩, ⟨t279, t281, t243⟩, false)
                     else
-                      if t269 < (0 : α) then
-                        (true, ⟨t190, t189, t188⟩, ⟨t262, t264, t226⟩, true)
+                      if t286 < (0 : α) then
+                        (true, ⟨t207, t206, t205⟩, ⟨t279, t281, t243⟩, true)
                       else
-                        (true, ⟨t190, t189, t188⟩, ⟨t262, t264, t226⟩, false)
+                        (true, ⟨t207, t206, t205⟩, ⟨t279, t281, t243⟩, false)
                   else
-                    (false, ⟨t190, t189, t188⟩, ⟨(0 : α), (0 : α), t226⟩, false)
+                    (false, ⟨t207, t206, t205⟩, ⟨(0 : α), (0 : α), t243⟩, false)
                 else
-                  (false, ⟨t190, t189, t188⟩, ⟨(0 : α), (0 : α), t226⟩, false)
+                  (false, ⟨t207, t206, t205⟩, ⟨(0 : α), (0 : α), t243⟩, false)
               else
-                if (0 : α) ≤ t299 then
-                  if t299 ≤ t304 then
-                    if t307 < (0 : α) then
-                      (false, ⟨t190, t189, t188⟩, ⟨t305, t307, t226⟩, false)
+                if (0 : α) ≤ t316 then
+                  if t316 ≤ t321 then
+                    if t324 < (0 : α) then
+                      (false, ⟨t207, t206, t205⟩, ⟨t322, t324, t243⟩, false)
                     else
-                      if t269 < (0 : α) then
-                        (true, ⟨t190, t189, t188⟩, ⟨t305, t307, t226⟩, true)
+                      if t286 < (0 : α) then
+                        (true, ⟨t207, t206, t205⟩, ⟨t322, t324, t243⟩, true)
                       else
-                        (true, ⟨t190, t189, t188⟩, ⟨t305, t307, t226⟩, false)
+                        (true, ⟨t207, t206, t205⟩, ⟨t322, t324, t243⟩, false)
                   else
-                    (false, ⟨t190, t189, t188⟩, ⟨(0 : α), (0 : α), t226⟩, false)
+                    (false, ⟨t207, t206, t205⟩, ⟨(0 : α), (0 : α), t243⟩, false)
                 else
-                  (false, ⟨t190, t189, t188⟩, ⟨(0 : α), (0 : α), t226⟩, false)
+                  (false, ⟨t207, t206, t205⟩, ⟨(0 : α), (0 : α), t243⟩, false)
             else
-              (false, ⟨t190, t189, t188⟩, ⟨(0 : α), (0 : α), (0 : α)⟩, false)
+              (false, ⟨t207, t206, t205⟩, ⟨(0 : α), (0 : α), (0 : α)⟩, false)
           else
-            (false, ⟨t190, t189, t188⟩, ⟨(0 : α), (0 : α), (0 : α)⟩, false)
+            (false, ⟨t207, t206, t205⟩, ⟨(0 : α), (0 : α), (0 : α)⟩, false)
         else
-          if (0 : α) ≤ t337 then
-            if t337 ≤ t342 then
-              if t227 = (0 : α) then
-                if (0 : α) ≤ t256 then
-                  if t256 ≤ t261 then
-                    if t344 < (0 : α) then
-                      (false, ⟨t190, t189, t188⟩, ⟨t262, t344, t343⟩, false)
+          if (0 : α) ≤ t354 then
+            if t354 ≤ t359 then
+              if t244 = (0 : α) then
+                if (0 : α) ≤ t273 then
+                  if t273 ≤ t278 then
+                    if t361 < (0 : α) then
+                      (false, ⟨t207, t206, t205⟩, ⟨t279, t361, t360⟩, false)
                     else
-                      if t269 < (0 : α) then
-                        (true, ⟨t190, t189, t188⟩, ⟨t262, t344, t343⟩, true)
+                      if t286 < (0 : α) then
+                        (true, ⟨t207, t206, t205⟩, ⟨t279, t361, t360⟩, true)
                       else
-                        (true, ⟨t190, t189, t188⟩, ⟨t262, t344, t343⟩, false)
+                        (true, ⟨t207, t206, t205⟩, ⟨t279, t361, t360⟩, false)
                   else
-                    (false, ⟨t190, t189, t188⟩, ⟨(0 : α), (0 : α), t343⟩, false)
+                    (false, ⟨t207, t206, t205⟩, ⟨(0 : α), (0 : α), t360⟩, false)
                 else
-                  (false, ⟨t190, t189, t188⟩, ⟨(0 : α), (0 : α), t343⟩, false)
+                  (false, ⟨t207, t206, t205⟩, ⟨(0 : α), (0 : α), t360⟩, false)
               else
-                if (0 : α) ≤ t299 then
-                  if t299 ≤ t304 then
-                    if t345 < (0 : α) then
-                      (false, ⟨t190, t189, t188⟩, ⟨t305, t345, t343⟩, false)
+                if (0 : α) ≤ t316 then
+                  if t316 ≤ t321 then
+                    if t362 < (0 : α) then
+                      (false, ⟨t207, t206, t205⟩, ⟨t322, t362, t360⟩, false)
                     else
-                      if t269 < (0 : α) then
-                        (true, ⟨t190, t189, t188⟩, ⟨t305, t345, t343⟩, true)
+                      if t286 < (0 : α) then
+                        (true, ⟨t207, t206, t205⟩, ⟨t322, t362, t360⟩, true)
                       else
-                        (true, ⟨t190, t189, t188⟩, ⟨t305, t345, t343⟩, false)
+                        (true, ⟨t207, t206, t205⟩, ⟨t322, t362, t360⟩, false)
                   else
-                    (false, ⟨t190, t189, t188⟩, ⟨(0 : α), (0 : α), t343⟩, false)
+                    (false, ⟨t207, t206, t205⟩, ⟨(0 : α), (0 : α), t360⟩, false)
                 else
-                  (false, ⟨t190, t189, t188⟩, ⟨(0 : α), (0 : α), t343⟩, false)
+                  (false, ⟨t207, t206, t205⟩, ⟨(0 : α), (0 : α), t360⟩, false)
             else
-              (false, ⟨t190, t189, t188⟩, ⟨(0 : α), (0 : α), (0 : α)⟩, false)
+              (false, ⟨t207, t206, t205⟩, ⟨(0 : α), (0 : α), (0 : α)⟩, false)
           else
-            (false, ⟨t190, t189, t188⟩, ⟨(0 : α), (0 : α), (0 : α)⟩, false)
+            (false, ⟨t207, t206, t205⟩, ⟨(0 : α), (0 : α), (0 : α)⟩, false)
       else
         (false, ⟨(0 : α), (0 : α), (0 : α)⟩, ⟨(0 : α), (0 : α), (0 : α)⟩, false)
 
 /-- extracted from the C++ template at T = Sym; 4 path(s) -/
 def LineAlgo.closestVertex {α : Type} [Add α] [Sub α] [Mul α] [LT α] [DecidableLT α] (v0 : V3 α) (v1 : V3 α) (v2 : V3 α) (l : Line3 α) : (V3 α) :=
-  let t352 := ((((v0.x - l.pos.x) * l.dir.x) + ((v0.y - l.pos.y) * l.dir.y)) + ((v0.z - l.pos.z) * l.dir.z))
-  let t359 := (v0.z - ((t352 * l.dir.z) + l.pos.z))
-  let t360 := (v0.y - ((t352 * l.dir.y) + l.pos.y))
-  let t361 := (v0.x - ((t352 * l.dir.x) + l.pos.x))
-  let t366 := (((t361 * t361) + (t360 * t360)) + (t359 * t359))
-  let t374 := ((((v1.x - l.pos.x) * l.dir.x) + ((v1.y - l.pos.y) * l.dir.y)) + ((v1.z - l.pos.z) * l.dir.z))
-  let t381 := (v1.z - ((t374 * l.dir.z) + l.pos.z))
-  let t382 := (v1.y - ((t374 * l.dir.y) + l.pos.y))
-  let t383 := (v1.x - ((t374 * l.dir.x) + l.pos.x))
-  let t388 := (((t383 * t383) + (t382 * t382)) + (t381 * t381))
-  let t396 := ((((v2.x - l.pos.x) * l.dir.x) + ((v2.y - l.pos.y) * l.dir.y)) + ((v2.z - l.pos.z) * l.dir.z))
-  let t403 := (v2.z - ((t396 * l.dir.z) + l.pos.z))
-  let t404 := (v2.y - ((t396 * l.dir.y) + l.pos.y))
-  let t405 := (v2.x - ((t396 * l.dir.x) + l.pos.x))
-  let t410 := (((t405 * t405) + (t404 * t404)) + (t403 * t403))
-  if t388 < t366 then
-    if t410 < t388 then
+  let t369 := ((((v0.x - l.pos.x) * l.dir.x) + ((v0.y - l.pos.y) * l.dir.y)) + ((v0.z - l.pos.z) * l.dir.z))
+  let t376 := (v0.z - ((t369 * l.dir.z) + l.pos.z))
+  let t377 := (v0.y - ((t369 * l.dir.y) + l.pos.y))
+  let t378 := (v0.x - ((t369 * l.dir.x) + l.pos.x))
+  let t383 := (((t378 * t378) + (t377 * t377)) + (t376 * t376))
+  let t391 := ((((v1.x - l.pos.x) * l.dir.x) + ((v1.y - l.pos.y) * l.dir.y)) + ((v1.z - l.pos.z) * l.dir.z))
+  let t398 := (v1.z - ((t391 * l.dir.z) + l.pos.z))
+  let t399 := (v1.y - ((t391 * l.dir.y) + l.pos.y))
+  let t400 := (v1.x - ((t391 * l.dir.x) + l.pos.x))
+  let t405 := (((t400 * t400) + (t399 * t399)) + (t398 * t398))
+  let t413 := ((((v2.x - l.pos.x) * l.dir.x) + ((v2.y - l.pos.y) * l.dir.y)) + ((v2.z - l.pos.z) * l.dir.z))
+  let t420 := (v2.z - ((t413 * l.dir.z) + l.pos.z))
+  let t421 := (v2.y - ((t413 * l.dir.y) + l.pos.y))
+  let t422 := (v2.x - ((t413 * l.dir.x) + l.pos.x))
+  let t427 := (((t422 * t422) + (t421 * t421)) + (t420 * t420))
+  if t405 < t383 then
+    if t427 < t405 then
       ⟨v2.x, v2.y, v2.z⟩
     else
       ⟨v1.x, v1.y, v1.z⟩
   else
-    if t410 < t366 then
+    if t427 < t383 then
       ⟨v2.x, v2.y, v2.z⟩
     else
       ⟨v0.x, v0.y, v0.z⟩
@@ -305,228 +305,228 @@ def LineAlgo.rotatePoint {α : Type} [Add α] [Sub α] [Mul α] [Div α] [Neg α
   let t41 := ((t37 * l.dir.z) + l.pos.z)
   let t42 := ((t37 * l.dir.y) + l.pos.y)
   let t43 := ((t37 * l.dir.x) + l.pos.x)
-  let t412 := (p.z - t41)
-  let t413 := (p.y - t42)
-  let t414 := (p.x - t43)
-  let t415 := (V3.length tmin sqrt ⟨t414, t413, t412⟩)
-  let t418 := ((t414 * l.dir.y) - (t413 * l.dir.x))
-  let t421 := ((t412 * l.dir.x) - (t414 * l.dir.z))
-  let t424 := ((t413 * l.dir.z) - (t412 * l.dir.y))
-  let t425 := (V3.length tmin sqrt ⟨t424, t421, t418⟩)
-  let t426 := (cos angle)
-  let t427 := (sin angle)
-  let t440 := (t41 + ((t412 * t415) * t426))
-  let t441 := (t42 + ((t413 * t415) * t426))
-  let t442 := (t43 + ((t414 * t415) * t426))
-  let t458 := (t414 / t415)
-  let t459 := (t413 / t415)
-  let t460 := (t412 / t415)
-  let t463 := ((t458 * l.dir.y) - (t459 * l.dir.x))
-  let t466 := ((t460 * l.dir.x) - (t458 * l.dir.z))
-  let t469 := ((t459 * l.dir.z) - (t460 * l.dir.y))
-  let t470 := (V3.length tmin sqrt ⟨t469, t466, t463⟩)
-  let t483 := (t41 + ((t460 * t415) * t426))
-  let t484 := (t42 + ((t459 * t415) * t426))
-  let t485 := (t43 + ((t458 * t415) * t426))
-  if t415 = (0 : α) then
-    if t425 = (0 : α) then
-      ⟨(t442 + ((t424 * t415) * t427)), (t441 + ((t421 * t415) * t427)), (t440 + ((t418 * t415) * t427))⟩
+  let t429 := (p.z - t41)
+  let t430 := (p.y - t42)
+  let t431 := (p.x - t43)
+  let t432 := (V3.length tmin sqrt ⟨t431, t430, t429⟩)
+  let t435 := ((t431 * l.dir.y) - (t430 * l.dir.x))
+  let t438 := ((t429 * l.dir.x) - (t431 * l.dir.z))
+  let t441 := ((t430 * l.dir.z) - (t429 * l.dir.y))
+  let t442 := (V3.length tmin sqrt ⟨t441, t438, t435⟩)
+  let t443 := (cos angle)
+  let t444 := (sin angle)
+  let t457 := (t41 + ((t429 * t432) * t443))
+  let t458 := (t42 + ((t430 * t432) * t443))
+  let t459 := (t43 + ((t431 * t432) * t443))
+  let t475 := (t431 / t432)
+  let t476 := (t430 / t432)
+  let t477 := (t429 / t432)
+  let t480 := ((t475 * l.dir.y) - (t476 * l.dir.x))
+  let t483 := ((t477 * l.dir.x) - (t475 * l.dir.z))
+  let t486 := ((t476 * l.dir.z) - (t477 * l.dir.y))
+  let t487 := (V3.length tmin sqrt ⟨t486, t483, t480⟩)
+  let t500 := (t41 + ((t477 * t432) * t443))
+  let t501 := (t42 + ((t476 * t432) * t443))
+  let t502 := (t43 + ((t475 * t432) * t443))
+  if t432 = (0 : α) then
+    if t442 = (0 : α) then
+      ⟨(t459 + ((t441 * t432) * t444)), (t458 + ((t438 * t432) * t444)), (t457 + ((t435 * t432) * t444))⟩
     else
-      ⟨(t442 + (((t424 / t425) * t415) * t427)), (t441 + (((t421 / t425) * t415) * t427)), (t440 + (((t418 / t425) * t415) * t427))⟩
+      ⟨(t459 + (((t441 / t442) * t432) * t444)), (t458 + (((t438 / t442) * t432) * t444)), (t457 + (((t435 / t442) * t432) * t444))⟩
   else
-    if t470 = (0 : α) then
-      ⟨(t485 + ((t469 * t415) * t427)), (t484 + ((t466 * t415) * t427)), (t483 + ((t463 * t415) * t427))⟩
+    if t487 = (0 : α) then
+      ⟨(t502 + ((t486 * t432) * t444)), (t501 + ((t483 * t432) * t444)), (t500 + ((t480 * t432) * t444))⟩
     else
-      ⟨(t485 + (((t469 / t470) * t415) * t427)), (t484 + (((t466 / t470) * t415) * t427)), (t483 + (((t463 / t470) * t415) * t427))⟩
+      ⟨(t502 + (((t486 / t487) * t432) * t444)), (t501 + (((t483 / t487) * t432) * t444)), (t500 + (((t480 / t487) * t432) * t444))⟩
 
 /-- extracted from the C++ template at T = Sym; 2 path(s) -/
 def VecAlgo2.project {α : Type} [Add α] [Mul α] [Div α] [Neg α] [LT α] [DecidableLT α] [DecidableEq α] [OfNat α 0] [OfNat α 2] (tmin : α) (sqrt : α → α) (s : V2 α) (t : V2 α) : (V2 α) :=
-  let t505 := (V2.length tmin sqrt ⟨s.x, s.y⟩)
-  let t509 := ((0 : α) * (((0 : α) * t.x) + ((0 : α) * t.y)))
-  let t510 := (s.y / t505)
-  let t511 := (s.x / t505)
-  let t514 := ((t511 * t.x) + (t510 * t.y))
-  if t505 = (0 : α) then
-    ⟨t509, t509⟩
+  let t522 := (V2.length tmin sqrt ⟨s.x, s.y⟩)
+  let t526 := ((0 : α) * (((0 : α) * t.x) + ((0 : α) * t.y)))
+  let t527 := (s.y / t522)
+  let t528 := (s.x / t522)
+  let t531 := ((t528 * t.x) + (t527 * t.y))
+  if t522 = (0 : α) then
+    ⟨t526, t526⟩
   else
-    ⟨(t511 * t514), (t510 * t514)⟩
+    ⟨(t528 * t531), (t527 * t531)⟩
 
 /-- extracted from the C++ template at T = Sym; 2 path(s) -/
 def VecAlgo2.orthogonal {α : Type} [Add α] [Sub α] [Mul α] [Div α] [Neg α] [LT α] [DecidableLT α] [DecidableEq α] [OfNat α 0] [OfNat α 2] (tmin : α) (sqrt : α → α) (s : V2 α) (t : V2 α) : (V2 α) :=
-  let t505 := (V2.length tmin sqrt ⟨s.x, s.y⟩)
-  let t509 := ((0 : α) * (((0 : α) * t.x) + ((0 : α) * t.y)))
-  let t510 := (s.y / t505)
-  let t511 := (s.x / t505)
-  let t514 := ((t511 * t.x) + (t510 * t.y))
-  if t505 = (0 : α) then
-    ⟨(t.x - t509), (t.y - t509)⟩
+  let t522 := (V2.length tmin sqrt ⟨s.x, s.y⟩)
+  let t526 := ((0 : α) * (((0 : α) * t.x) + ((0 : α) * t.y)))
+  let t527 := (s.y / t522)
+  let t528 := (s.x / t522)
+  let t531 := ((t528 * t.x) + (t527 * t.y))
+  if t522 = (0 : α) then
+    ⟨(t.x - t526), (t.y - t526)⟩
   else
-    ⟨(t.x - (t511 * t514)), (t.y - (t510 * t514))⟩
+    ⟨(t.x - (t528 * t531)), (t.y - (t527 * t531))⟩
 
 /-- extracted from the C++ template at T = Sym; 2 path(s) -/
 def VecAlgo2.reflect {α : Type} [Add α] [Sub α] [Mul α] [Div α] [Neg α] [LT α] [DecidableLT α] [DecidableEq α] [OfNat α 0] [OfNat α 2] (tmin : α) (sqrt : α → α) (s : V2 α) (t : V2 α) : (V2 α) :=
-  let t521 := (V2.length tmin sqrt ⟨t.x, t.y⟩)
-  let t525 := ((0 : α) * (((0 : α) * s.x) + ((0 : α) * s.y)))
-  let t533 := (t.y / t521)
-  let t534 := (t.x / t521)
-  let t537 := ((t534 * s.x) + (t533 * s.y))
-  if t521 = (0 : α) then
-    ⟨(s.x - ((2 : α) * (s.x - t525))), (s.y - ((2 : α) * (s.y - t525)))⟩
+  let t538 := (V2.length tmin sqrt ⟨t.x, t.y⟩)
+  let t542 := ((0 : α) * (((0 : α) * s.x) + ((0 : α) * s.y)))
+  let t550 := (t.y / t538)
+  let t551 := (t.x / t538)
+  let t554 := ((t551 * s.x) + (t550 * s.y))
+  if t538 = (0 : α) then
+    ⟨(s.x - ((2 : α) * (s.x - t542))), (s.y - ((2 : α) * (s.y - t542)))⟩
   else
-    ⟨(s.x - ((2 : α) * (s.x - (t534 * t537)))), (s.y - ((2 : α) * (s.y - (t533 * t537))))⟩
+    ⟨(s.x - ((2 : α) * (s.x - (t551 * t554)))), (s.y - ((2 : α) * (s.y - (t550 * t554))))⟩
 
 /-- extracted from the C++ template at T = Sym; 4 path(s) -/
 def VecAlgo2.closestVertex {α : Type} [Add α] [Sub α] [Mul α] [LT α] [DecidableLT α] (v0 : V2 α) (v1 : V2 α) (v2 : V2 α) (p : V2 α) : (V2 α) :=
-  let t546 := (v0.y - p.y)
-  let t547 := (v0.x - p.x)
-  let t550 := ((t547 * t547) + (t546 * t546))
-  let t551 := (v1.y - p.y)
-  let t552 := (v1.x - p.x)
-  let t555 := ((t552 * t552) + (t551 * t551))
-  let t556 := (v2.y - p.y)
-  let t557 := (v2.x - p.x)
-  let t560 := ((t557 * t557) + (t556 * t556))
-  if t555 < t550 then
-    if t560 < t555 then
+  let t563 := (v0.y - p.y)
+  let t564 := (v0.x - p.x)
+  let t567 := ((t564 * t564) + (t563 * t563))
+  let t568 := (v1.y - p.y)
+  let t569 := (v1.x - p.x)
+  let t572 := ((t569 * t569) + (t568 * t568))
+  let t573 := (v2.y - p.y)
+  let t574 := (v2.x - p.x)
+  let t577 := ((t574 * t574) + (t573 * t573))
+  if t572 < t567 then
+    if t577 < t572 then
       ⟨v2.x, v2.y⟩
     else
       ⟨v1.x, v1.y⟩
   else
-    if t560 < t550 then
+    if t577 < t567 then
       ⟨v2.x, v2.y⟩
     else
       ⟨v0.x, v0.y⟩
 
 /-- extracted from the C++ template at T = Sym; 2 path(s) -/
 def VecAlgo3.project {α : Type} [Add α] [Mul α] [Div α] [Neg α] [LT α] [LE α] [DecidableLT α] [DecidableLE α] [DecidableEq α] [OfNat α 0] [OfNat α 2] (tmin : α) (sqrt : α → α) (s : V3 α) (t : V3 α) : (V3 α) :=
-  let t563 := (V3.length tmin sqrt ⟨s.x, s.y, s.z⟩)
-  let t566 := ((0 : α) * ((((0 : α) * t.x) + ((0 : α) * t.y)) + ((0 : α) * t.z)))
-  let t567 := (s.z / t563)
-  let t568 := (s.y / t563)
-  let t569 := (s.x / t563)
-  let t574 := (((t569 * t.x) + (t568 * t.y)) + (t567 * t.z))
-  if t563 = (0 : α) then
-    ⟨t566, t566, t566⟩
+  let t580 := (V3.length tmin sqrt ⟨s.x, s.y, s.z⟩)
+  let t583 := ((0 : α) * ((((0 : α) * t.x) + ((0 : α) * t.y)) + ((0 : α) * t.z)))
+  let t584 := (s.z / t580)
+  let t585 := (s.y / t580)
+  let t586 := (s.x / t580)
+  let t591 := (((t586 * t.x) + (t585 * t.y)) + (t584 * t.z))
+  if t580 = (0 : α) then
+    ⟨t583, t583, t583⟩
   else
-    ⟨(t569 * t574), (t568 * t574), (t567 * t574)⟩
+    ⟨(t586 * t591), (t585 * t591), (t584 * t591)⟩
 
 /-- extracted from the C++ template at T = Sym; 2 path(s) -/
 def VecAlgo3.orthogonal {α : Type} [Add α] [Sub α] [Mul α] [Div α] [Neg α] [LT α] [LE α] [DecidableLT α] [DecidableLE α] [DecidableEq α] [OfNat α 0] [OfNat α 2] (tmin : α) (sqrt : α → α) (s : V3 α) (t : V3 α) : (V3 α) :=
-  let t563 := (V3.length tmin sqrt ⟨s.x, s.y, s.z⟩)
-  let t566 := ((0 : α) * ((((0 : α) * t.x) + ((0 : α) * t.y)) + ((0 : α) * t.z)))
-  let t567 := (s.z / t563)
-  let t568 := (s.y / t563)
-  let t569 := (s.x / t563)
-  let t574 := (((t569 * t.x) + (t568 * t.y)) + (t567 * t.z))
-  if t563 = (0 : α) then
-    ⟨(t.x - t566), (t.y - t566), (t.z - t566)⟩
+  let t580 := (V3.length tmin sqrt ⟨s.x, s.y, s.z⟩)
+  let t583 := ((0 : α) * ((((0 : α) * t.x) + ((0 : α) * t.y)) + ((0 : α) * t.z)))
+  let t584 := (s.z / t580)
+  let t585 := (s.y / t580)
+  let t586 := (s.x / t580)
+  let t591 := (((t586 * t.x) + (t585 * t.y)) + (t584 * t.z))
+  if t580 = (0 : α) then
+    ⟨(t.x - t583), (t.y - t583), (t.z - t583)⟩
   else
-    ⟨(t.x - (t569 * t574)), (t.y - (t568 * t574)), (t.z - (t567 * t574))⟩
+    ⟨(t.x - (t586 * t591)), (t.y - (t585 * t591)), (t.z - (t584 * t591))⟩
 
 /-- extracted from the C++ template at T = Sym; 2 path(s) -/
 def VecAlgo3.reflect {α : Type} [Add α] [Sub α] [Mul α] [Div α] [Neg α] [LT α] [LE α] [DecidableLT α] [DecidableLE α] [DecidableEq α] [OfNat α 0] [OfNat α 2] (tmin : α) (sqrt : α → α) (s : V3 α) (t : V3 α) : (V3 α) :=
-  let t584 := (V3.length tmin sqrt ⟨t.x, t.y, t.z⟩)
-  let t587 := ((0 : α) * ((((0 : α) * s.x) + ((0 : α) * s.y)) + ((0 : α) * s.z)))
-  let t597 := (t.z / t584)
-  let t598 := (t.y / t584)
-  let t599 := (t.x / t584)
-  let t604 := (((t599 * s.x) + (t598 * s.y)) + (t597 * s.z))
-  if t584 = (0 : α) then
-    ⟨(s.x - ((2 : α) * (s.x - t587))), (s.y - ((2 : α) * (s.y - t587))), (s.z - ((2 : α) * (s.z - t587)))⟩
+  let t601 := (V3.length tmin sqrt ⟨t.x, t.y, t.z⟩)
+  let t604 := ((0 : α) * ((((0 : α) * s.x) + ((0 : α) * s.y)) + ((0 : α) * s.z)))
+  let t614 := (t.z / t601)
+  let t615 := (t.y / t601)
+  let t616 := (t.x / t601)
+  let t621 := (((t616 * s.x) + (t615 * s.y)) + (t614 * s.z))
+  if t601 = (0 : α) then
+    ⟨(s.x - ((2 : α) * (s.x - t604))), (s.y - ((2 : α) * (s.y - t604))), (s.z - ((2 : α) * (s.z - t604)))⟩
   else
-    ⟨(s.x - ((2 : α) * (s.x - (t599 * t604)))), (s.y - ((2 : α) * (s.y - (t598 * t604)))), (s.z - ((2 : α) * (s.z - (t597 * t604))))⟩
+    ⟨(s.x - ((2 : α) * (s.x - (t616 * t621)))), (s.y - ((2 : α) * (s.y - (t615 * t621)))), (s.z - ((2 : α) * (s.z - (t614 * t621))))⟩
 
 /-- extracted from the C++ template at T = Sym; 4 path(s) -/
 def VecAlgo3.closestVertex {α : Type} [Add α] [Sub α] [Mul α] [LT α] [DecidableLT α] (v0 : V3 α) (v1 : V3 α) (v2 : V3 α) (p : V3 α) : (V3 α) :=
-  let t546 := (v0.y - p.y)
-  let t547 := (v0.x - p.x)
-  let t551 := (v1.y - p.y)
-  let t552 := (v1.x - p.x)
-  let t556 := (v2.y - p.y)
-  let t557 := (v2.x - p.x)
-  let t617 := (v0.z - p.z)
-  let t619 := (((t547 * t547) + (t546 * t546)) + (t617 * t617))
-  let t620 := (v1.z - p.z)
-  let t622 := (((t552 * t552) + (t551 * t551)) + (t620 * t620))
-  let t623 := (v2.z - p.z)
-  let t625 := (((t557 * t557) + (t556 * t556)) + (t623 * t623))
-  if t622 < t619 then
-    if t625 < t622 then
+  let t563 := (v0.y - p.y)
+  let t564 := (v0.x - p.x)
+  let t568 := (v1.y - p.y)
+  let t569 := (v1.x - p.x)
+  let t573 := (v2.y - p.y)
+  let t574 := (v2.x - p.x)
+  let t634 := (v0.z - p.z)
+  let t636 := (((t564 * t564) + (t563 * t563)) + (t634 * t634))
+  let t637 := (v1.z - p.z)
+  let t639 := (((t569 * t569) + (t568 * t568)) + (t637 * t637))
+  let t640 := (v2.z - p.z)
+  let t642 := (((t574 * t574) + (t573 * t573)) + (t640 * t640))
+  if t639 < t636 then
+    if t642 < t639 then
       ⟨v2.x, v2.y, v2.z⟩
     else
       ⟨v1.x, v1.y, v1.z⟩
   else
-    if t625 < t619 then
+    if t642 < t636 then
       ⟨v2.x, v2.y, v2.z⟩
     else
       ⟨v0.x, v0.y, v0.z⟩
 
 /-- extracted from the C++ template at T = Sym; 2 path(s) -/
 def VecAlgo4.project {α : Type} [Add α] [Mul α] [Div α] [Neg α] [LT α] [LE α] [DecidableLT α] [DecidableLE α] [DecidableEq α] [OfNat α 0] [OfNat α 2] (tmin : α) (sqrt : α → α) (s : V4 α) (t : V4 α) : (V4 α) :=
-  let t628 := (V4.length tmin sqrt ⟨s.x, s.y, s.z, s.w⟩)
-  let t631 := ((0 : α) * (((((0 : α) * t.x) + ((0 : α) * t.y)) + ((0 : α) * t.z)) + ((0 : α) * t.w)))
-  let t632 := (s.w / t628)
-  let t633 := (s.z / t628)
-  let t634 := (s.y / t628)
-  let t635 := (s.x / t628)
-  let t642 := ((((t635 * t.x) + (t634 * t.y)) + (t633 * t.z)) + (t632 * t.w))
-  if t628 = (0 : α) then
-    ⟨t631, t631, t631, t631⟩
+  let t645 := (V4.length tmin sqrt ⟨s.x, s.y, s.z, s.w⟩)
+  let t648 := ((0 : α) * (((((0 : α) * t.x) + ((0 : α) * t.y)) + ((0 : α) * t.z)) + ((0 : α) * t.w)))
+  let t649 := (s.w / t645)
+  let t650 := (s.z / t645)
+  let t651 := (s.y / t645)
+  let t652 := (s.x / t645)
+  let t659 := ((((t652 * t.x) + (t651 * t.y)) + (t650 * t.z)) + (t649 * t.w))
+  if t645 = (0 : α) then
+    ⟨t648, t648, t648, t648⟩
   else
-    ⟨(t635 * t642), (t634 * t642), (t633 * t642), (t632 * t642)⟩
+    ⟨(t652 * t659), (t651 * t659), (t650 * t659), (t649 * t659)⟩
 
 /-- extracted from the C++ template at T = Sym; 2 path(s) -/
 def VecAlgo4.orthogonal {α : Type} [Add α] [Sub α] [Mul α] [Div α] [Neg α] [LT α] [LE α] [DecidableLT α] [DecidableLE α] [DecidableEq α] [OfNat α 0] [OfNat α 2] (tmin : α) (sqrt : α → α) (s : V4 α) (t : V4 α) : (V4 α) :=
-  let t628 := (V4.length tmin sqrt ⟨s.x, s.y, s.z, s.w⟩)
-  let t631 := ((0 : α) * (((((0 : α) * t.x) + ((0 : α) * t.y)) + ((0 : α) * t.z)) + ((0 : α) * t.w)))
-  let t632 := (s.w / t628)
-  let t633 := (s.z / t628)
-  let t634 := (s.y / t628)
-  let t635 := (s.x / t628)
-  let t642 := ((((t635 * t.x) + (t634 * t.y)) + (t633 * t.z)) + (t632 * t.w))
-  if t628 = (0 : α) then
-    ⟨(t.x - t631), (t.y - t631), (t.z - t631), (t.w - t631)⟩
+  let t645 := (V4.length tmin sqrt ⟨s.x, s.y, s.z, s.w⟩)
+  let t648 := ((0 : α) * (((((0 : α) * t.x) + ((0 : α) * t.y)) + ((0 : α) * t.z)) + ((0 : α) * t.w)))
+  let t649 := (s.w / t645)
+  let t650 := (s.z / t645)
+  let t651 := (s.y / t645)
+  let t652 := (s.x / t645)
+  let t659 := ((((t652 * t.x) + (t651 * t.y)) + (t650 * t.z)) + (t649 * t.w))
+  if t645 = (0 : α) then
+    ⟨(t.x - t648), (t.y - t648), (t.z - t648), (t.w - t648)⟩
   else
-    ⟨(t.x - (t635 * t642)), (t.y - (t634 * t642)), (t.z - (t633 * t642)), (t.w - (t632 * t642))⟩
+    ⟨(t.x - (t652 * t659)), (t.y - (t651 * t659)), (t.z - (t650 * t659)), (t.w - (t649 * t659))⟩
 
 /-- extracted from the C++ template at T = Sym; 2 path(s) -/
 def VecAlgo4.reflect {α : Type} [Add α] [Sub α] [Mul α] [Div α] [Neg α] [LT α] [LE α] [DecidableLT α] [DecidableLE α] [DecidableEq α] [OfNat α 0] [OfNat α 2] (tmin : α) (sqrt : α → α) (s : V4 α) (t : V4 α) : (V4 α) :=
-  let t655 := (V4.length tmin sqrt ⟨t.x, t.y, t.z, t.w⟩)
-  let t658 := ((0 : α) * (((((0 : α) * s.x) + ((0 : α) * s.y)) + ((0 : α) * s.z)) + ((0 : α) * s.w)))
-  let t671 := (t.w / t655)
-  let t672 := (t.z / t655)
-  let t673 := (t.y / t655)
-  let t674 := (t.x / t655)
-  let t681 := ((((t674 * s.x) + (t673 * s.y)) + (t672 * s.z)) + (t671 * s.w))
-  if t655 = (0 : α) then
-    ⟨(s.x - ((2 : α) * (s.x - t658))), (s.y - ((2 : α) * (s.y - t658))), (s.z - ((2 : α) * (s.z - t658))), (s.w - ((2 : α) * (s.w - t658)))⟩
+  let t672 := (V4.length tmin sqrt ⟨t.x, t.y, t.z, t.w⟩)
+  let t675 := ((0 : α) * (((((0 : α) * s.x) + ((0 : α) * s.y)) + ((0 : α) * s.z)) + ((0 : α) * s.w)))
+  let t688 := (t.w / t672)
+  let t689 := (t.z / t672)
+  let t690 := (t.y / t672)
+  let t691 := (t.x / t672)
+  let t698 := ((((t691 * s.x) + (t690 * s.y)) + (t689 * s.z)) + (t688 * s.w))
+  if t672 = (0 : α) then
+    ⟨(s.x - ((2 : α) * (s.x - t675))), (s.y - ((2 : α) * (s.y - t675))), (s.z - ((2 : α) * (s.z - t675))), (s.w - ((2 : α) * (s.w - t675)))⟩
   else
-    ⟨(s.x - ((2 : α) * (s.x - (t674 * t681)))), (s.y - ((2 : α) * (s.y - (t673 * t681)))), (s.z - ((2 : α) * (s.z - (t672 * t681)))), (s.w - ((2 : α) * (s.w - (t671 * t681))))⟩
+    ⟨(s.x - ((2 : α) * (s.x - (t691 * t698)))), (s.y - ((2 : α) * (s.y - (t690 * t698)))), (s.z - ((2 : α) * (s.z - (t689 * t698)))), (s.w - ((2 : α) * (s.w - (t688 * t698))))⟩
 
 /-- extracted from the C++ template at T = Sym; 4 path(s) -/
 def VecAlgo4.closestVertex {α : Type} [Add α] [Sub α] [Mul α] [LT α] [DecidableLT α] (v0 : V4 α) (v1 : V4 α) (v2 : V4 α) (p : V4 α) : (V4 α) :=
-  let t546 := (v0.y - p.y)
-  let t547 := (v0.x - p.x)
-  let t551 := (v1.y - p.y)
-  let t552 := (v1.x - p.x)
-  let t556 := (v2.y - p.y)
-  let t557 := (v2.x - p.x)
-  let t617 := (v0.z - p.z)
-  let t620 := (v1.z - p.z)
-  let t623 := (v2.z - p.z)
-  let t702 := (v0.w - p.w)
-  let t704 := ((((t547 * t547) + (t546 * t546)) + (t617 * t617)) + (t702 * t702))
-  let t705 := (v1.w - p.w)
-  let t707 := ((((t552 * t552) + (t551 * t551)) + (t620 * t620)) + (t705 * t705))
-  let t708 := (v2.w - p.w)
-  let t710 := ((((t557 * t557) + (t556 * t556)) + (t623 * t623)) + (t708 * t708))
-  if t707 < t704 then
-    if t710 < t707 then
+  let t563 := (v0.y - p.y)
+  let t564 := (v0.x - p.x)
+  let t568 := (v1.y - p.y)
+  let t569 := (v1.x - p.x)
+  let t573 := (v2.y - p.y)
+  let t574 := (v2.x - p.x)
+  let t634 := (v0.z - p.z)
+  let t637 := (v1.z - p.z)
+  let t640 := (v2.z - p.z)
+  let t719 := (v0.w - p.w)
+  let t721 := ((((t564 * t564) + (t563 * t563)) + (t634 * t634)) + (t719 * t719))
+  let t722 := (v1.w - p.w)
+  let t724 := ((((t569 * t569) + (t568 * t568)) + (t637 * t637)) + (t722 * t722))
+  let t725 := (v2.w - p.w)
+  let t727 := ((((t574 * t574) + (t573 * t573)) + (t640 * t640)) + (t725 * t725))
+  if t724 < t721 then
+    if t727 < t724 then
       ⟨v2.x, v2.y, v2.z, v2.w⟩
     else
       ⟨v1.x, v1.y, v1.z, v1.w⟩
   else
-    if t710 < t704 then
+    if t727 < t721 then
       ⟨v2.x, v2.y, v2.z, v2.w⟩
     else
       ⟨v0.x, v0.y, v0.z, v0.w⟩
